@@ -576,6 +576,14 @@ impl Database {
                         // Keep what is known about an existing key (disk addresses, dirty
                         // state) and move its version forward instead of starting over
                         let new_value = match db.get(&key) {
+                            // A tombstone only remembers where the removed key lives on disk: the
+                            // key itself starts over, exactly as on a node that has no tombstone
+                            Some(old_value) if old_value.state == ValueStatus::Deleted => Value {
+                                state: ValueStatus::Updated,
+                                value_disk_addr: old_value.value_disk_addr,
+                                key_disk_addr: old_value.key_disk_addr,
+                                ..Value::from(next.clone())
+                            },
                             Some(old_value) => Value {
                                 value: next.clone(),
                                 version: if old_value.is_in_conflict_resolution() {
@@ -842,7 +850,17 @@ impl Database {
             #[cfg(feature = "verif")]
             crate::verif::point("db.map:set_value");
             let mut db = self.map.write().unwrap();
-            let old_value = db.get(&change.key).cloned();
+            // A removed key that is still waiting for the next snapshot (tombstone) is absent for
+            // the version rules; only its disk addresses are kept. Otherwise the version of a
+            // re-created key would depend on whether this node snapshotted before the remove
+            let tombstone = match db.get(&change.key) {
+                Some(value) if value.state == ValueStatus::Deleted => Some(value.clone()),
+                _ => None,
+            };
+            let old_value = match tombstone {
+                Some(_) => None,
+                None => db.get(&change.key).cloned(),
+            };
             if let Some(old_version) = old_value {
                 let new_version = change.next_version(&old_version);
                 if new_version <= old_version.version && !change.allow_save_version() {
@@ -890,9 +908,12 @@ impl Database {
                     Value {
                         value: change.value.clone(),
                         version: new_version,
-                        state: ValueStatus::New,
-                        value_disk_addr: 0,
-                        key_disk_addr: 0,
+                        state: match tombstone {
+                            Some(_) => ValueStatus::Updated,
+                            None => ValueStatus::New,
+                        },
+                        value_disk_addr: tombstone.as_ref().map_or(0, |t| t.value_disk_addr),
+                        key_disk_addr: tombstone.as_ref().map_or(0, |t| t.key_disk_addr),
                         opp_id: change.opp_id,
                     },
                 );
